@@ -6,6 +6,8 @@ use std::cell::Cell;
 thread_local! {
     /// loose = the grammar-directed generator may also pick constructs that are diagnostics
     static LOOSE: Cell<bool> = Cell::new(false);
+    /// number of tokens of the last generated literal that precede its top-level selection set
+    static HEADER: Cell<usize> = Cell::new(usize::MAX);
 }
 fn loose() -> bool {
     LOOSE.with(|l| l.get())
@@ -309,7 +311,14 @@ fn description(r: &mut Rng, out: &mut Vec<String>) {
 }
 
 pub fn literal_tokens(r: &mut Rng) -> Vec<String> {
-    LOOSE.with(|l| l.set(r.chance(1, 4)));
+    let loose = r.chance(1, 4);
+    literal_tokens_mode(r, loose)
+}
+
+/// `loose = false`: a valid declaration (field/pointer/entrypoint) in every respect
+pub fn literal_tokens_mode(r: &mut Rng, loose_mode: bool) -> Vec<String> {
+    LOOSE.with(|l| l.set(loose_mode));
+    HEADER.with(|h| h.set(usize::MAX));
     let mut out = vec![];
     let depth = *r.pick(&[0usize, 1, 1, 2, 2, 3, 4, 6]);
     match r.below(10) {
@@ -324,6 +333,7 @@ pub fn literal_tokens(r: &mut Rng) -> Vec<String> {
             directives(r, false, false, &mut out);
             description(r, &mut out);
             if !(loose() && r.chance(1, 30)) {
+                HEADER.with(|h| h.set(out.len()));
                 selection_set(r, depth, &mut out);
             }
         }
@@ -340,6 +350,7 @@ pub fn literal_tokens(r: &mut Rng) -> Vec<String> {
             directives(r, false, false, &mut out);
             description(r, &mut out);
             if !(loose() && r.chance(1, 30)) {
+                HEADER.with(|h| h.set(out.len()));
                 selection_set(r, depth, &mut out);
             }
         }
@@ -388,8 +399,160 @@ pub fn join(r: &mut Rng, toks: &[String]) -> String {
 
 const JUNK: &[&str] = &[
     "#", "# comment", "😀", "\u{1}", "é", "→", "-", "1.5", "1e5", "0x1F", "..", "...", "\"", "\"\"\"", "\\", "[", "]", "=", "!", "$",
-    "@", ":", ",", "{", "}", "(", ")", "99999999999999999999", "\u{feff}", "\u{b}", "漢",
+    "@", ":", ",", "{", "}", "(", ")", "99999999999999999999", "\u{feff}", "\u{b}", "漢", "\u{a0}", "\u{3000}", "\u{2028}", "\u{85}",
+    "｛", "｝", "（", "：", "“", "”", "’", "\u{301}", "👍🏽", "\u{200a}", "\u{c}",
 ];
+
+/// ASCII white space (all of it is lexer white space)
+const ASCII_WS: &[&str] = &[" ", " ", "\n", "\n", "\t", "\r\n", "\r", "  ", "\n\n"];
+
+/// Unicode `White_Space` characters (what `str::trim_end` strips) that the iso lexer does NOT skip
+/// (they are Error tokens), except U+000C which it does skip
+const UNI_WS: &[&str] = &[
+    "\u{b}", "\u{c}", "\u{85}", "\u{a0}", "\u{1680}", "\u{2000}", "\u{2001}", "\u{2002}", "\u{2003}", "\u{2004}", "\u{2005}",
+    "\u{2006}", "\u{2007}", "\u{2008}", "\u{2009}", "\u{200a}", "\u{2028}", "\u{2029}", "\u{202f}", "\u{205f}", "\u{3000}",
+];
+
+/// multi-byte characters that are not tokens: full-width punctuation, emoji, curly quotes, combining marks
+const MULTIBYTE: &[&str] = &[
+    "｛", "｝", "（", "）", "：", "，", "．", "＠", "＄", "！", "［", "“", "”", "‘", "’", "«", "😀", "👍🏽", "🇩🇪", "\u{301}", "\u{20dd}",
+    "é", "漢", "→", "\u{feff}", "\u{a0}", "\u{3000}",
+];
+
+const STRAY: &[&str] = &["}", "{", ")", "x", "field", "@", ",", "1", "\"s\"", ".", "#", "$v", ":", "!"];
+
+fn pieces(r: &mut Rng, pool: &[&str], lo: usize, hi: usize) -> String {
+    let n = r.range(lo, hi);
+    (0..n).map(|_| r.pick(pool).to_string()).collect()
+}
+
+/// (1) a complete valid declaration followed by trailing junk
+fn gen_trailing(r: &mut Rng) -> (String, &'static str) {
+    let t = literal_tokens_mode(r, false);
+    let mut s = join(r, &t);
+    match r.below(10) {
+        // ASCII white space, then ONLY white space in the sense of `str::trim_end` (Unicode ± ASCII)
+        0..=3 => {
+            s.push_str(&pieces(r, ASCII_WS, 1, 2));
+            let n = r.range(1, 3);
+            for _ in 0..n {
+                s.push_str(*r.pick(UNI_WS));
+                if r.chance(1, 2) {
+                    s.push_str(&pieces(r, ASCII_WS, 0, 2));
+                }
+            }
+            (s, "trail-ascii-then-uniws")
+        }
+        // Unicode white space glued to the declaration
+        4 => {
+            s.push_str(&pieces(r, UNI_WS, 1, 3));
+            s.push_str(&pieces(r, ASCII_WS, 0, 2));
+            (s, "trail-uniws")
+        }
+        5 => {
+            s.push_str(&pieces(r, ASCII_WS, 1, 4));
+            (s, "trail-ascii-ws")
+        }
+        6 => {
+            s.push_str(&pieces(r, ASCII_WS, 0, 2));
+            s.push_str(&pieces(r, &["\u{feff}"], 1, 2));
+            s.push_str(&pieces(r, ASCII_WS, 0, 1));
+            (s, "trail-bom")
+        }
+        7 => {
+            s.push_str(&pieces(r, ASCII_WS, 0, 2));
+            s.push_str(&pieces(r, STRAY, 1, 3));
+            s.push_str(&pieces(r, ASCII_WS, 0, 1));
+            (s, "trail-stray")
+        }
+        8 => {
+            s.push_str(&pieces(r, ASCII_WS, 0, 1));
+            s.push_str(&pieces(r, MULTIBYTE, 1, 2));
+            s.push_str(&pieces(r, UNI_WS, 0, 2));
+            (s, "trail-multibyte")
+        }
+        _ => {
+            let n = r.range(1, 5);
+            for _ in 0..n {
+                let pool: &[&str] = match r.below(5) {
+                    0 => ASCII_WS,
+                    1 => UNI_WS,
+                    2 => STRAY,
+                    3 => MULTIBYTE,
+                    _ => &["\u{feff}"],
+                };
+                s.push_str(*r.pick(pool));
+            }
+            (s, "trail-mix")
+        }
+    }
+}
+
+/// multi-byte characters, with or without white space in front / behind
+fn multibyte_insert(r: &mut Rng) -> (String, bool) {
+    let glued = r.chance(1, 2);
+    let mut x = String::new();
+    if !glued {
+        x.push_str(*r.pick(ASCII_WS));
+    }
+    x.push_str(&pieces(r, MULTIBYTE, 1, 2));
+    if r.chance(1, 3) {
+        x.push_str(*r.pick(ASCII_WS));
+    }
+    (x, glued)
+}
+
+/// (2) a valid literal cut at a token boundary, immediately followed by multi-byte characters
+fn gen_truncated(r: &mut Rng) -> (String, &'static str) {
+    let t = literal_tokens_mode(r, false);
+    let header = HEADER.with(|h| h.get());
+    // half of the cuts are right before the top-level selection set (when there is one)
+    let (cut, at_header) = if header != usize::MAX && r.chance(1, 2) { (header, true) } else { (r.range(1, t.len()), false) };
+    let mut s = join(r, &t[..cut]);
+    let (ins, glued) = multibyte_insert(r);
+    s.push_str(&ins);
+    // sometimes the rest of the literal follows in full-width disguise or as it was
+    if r.chance(1, 4) {
+        s.push_str(&join(r, &t[cut..]));
+    }
+    let tag = match (at_header || cut == header, glued) {
+        (true, true) => "trunc-header-glued-multibyte",
+        (true, false) => "trunc-header-ws-multibyte",
+        (false, true) => "trunc-glued-multibyte",
+        (false, false) => "trunc-ws-multibyte",
+    };
+    (s, tag)
+}
+
+/// (3) the same insertions at a token boundary inside an otherwise valid literal
+fn gen_inserted(r: &mut Rng) -> (String, &'static str) {
+    let t = literal_tokens_mode(r, false);
+    let cut = r.range(0, t.len());
+    let mut s = join(r, &t[..cut]);
+    let tag = match r.below(4) {
+        0 => {
+            s.push_str(&pieces(r, UNI_WS, 1, 2));
+            "insert-uniws"
+        }
+        1 => {
+            s.push_str(*r.pick(ASCII_WS));
+            s.push_str(&pieces(r, UNI_WS, 1, 2));
+            s.push_str(*r.pick(ASCII_WS));
+            "insert-ws-uniws-ws"
+        }
+        _ => {
+            let (ins, glued) = multibyte_insert(r);
+            s.push_str(&ins);
+            if glued { "insert-glued-multibyte" } else { "insert-ws-multibyte" }
+        }
+    };
+    let rest = join(r, &t[cut..]);
+    if !rest.is_empty() && !s.ends_with(|c: char| c.is_whitespace()) && wordy(rest.chars().next()) && wordy(s.chars().last()) {
+        s.push(' ');
+    }
+    s.push_str(&rest);
+    (s, tag)
+}
 
 fn mutate_tokens(r: &mut Rng, toks: &mut Vec<String>) {
     let n = r.range(1, 3);
@@ -424,7 +587,8 @@ fn mutate_chars(r: &mut Rng, s: &str) -> String {
         return s.to_string();
     }
     let i = r.below(cs.len());
-    let pool: Vec<char> = "{}()[]:,.$@!=\"\\#-0123456789aZ_ \n\t\u{1}\u{7f}é→😀\u{feff}\r".chars().collect();
+    let pool: Vec<char> =
+        "{}()[]:,.$@!=\"\\#-0123456789aZ_ \n\t\u{1}\u{7f}é→😀\u{feff}\r\u{a0}\u{3000}\u{2028}\u{85}\u{b}\u{c}｛｝：“’\u{301}".chars().collect();
     match r.below(3) {
         0 => cs[i] = *r.pick(&pool),
         1 => cs.insert(i, *r.pick(&pool)),
@@ -452,27 +616,39 @@ pub fn gen_lex_text(r: &mut Rng) -> String {
     }
 }
 
-pub fn gen_parse_case(r: &mut Rng) -> (String, bool) {
+pub fn gen_parse_case(r: &mut Rng) -> (String, bool, &'static str) {
     let export = !r.chance(1, 12);
-    let text = match r.below(20) {
-        0 => gen_text(r, 30, MIXED_ALPHABET),
-        1 => gen_text(r, 10, JUNK),
-        2..=6 => {
+    match r.below(32) {
+        0 => (gen_text(r, 30, MIXED_ALPHABET), export, "arbitrary"),
+        1 => (gen_text(r, 10, JUNK), export, "junk"),
+        2..=4 => {
             let mut t = literal_tokens(r);
             mutate_tokens(r, &mut t);
-            join(r, &t)
+            (join(r, &t), export, "mutated-tokens")
         }
-        7..=8 => {
+        5..=6 => {
             let t = literal_tokens(r);
             let s = join(r, &t);
-            mutate_chars(r, &s)
+            (mutate_chars(r, &s), export, "mutated-chars")
+        }
+        7..=10 => {
+            let (s, tag) = gen_trailing(r);
+            (s, true, tag)
+        }
+        11..=13 => {
+            let (s, tag) = gen_truncated(r);
+            (s, true, tag)
+        }
+        14..=15 => {
+            let (s, tag) = gen_inserted(r);
+            (s, true, tag)
         }
         _ => {
-            let t = literal_tokens(r);
-            join(r, &t)
+            let loose_mode = r.chance(1, 6);
+            let t = literal_tokens_mode(r, loose_mode);
+            (join(r, &t), export, "grammar")
         }
-    };
-    (text, export)
+    }
 }
 
 pub fn gen_resolve_text(r: &mut Rng) -> String {
